@@ -284,6 +284,8 @@ def make_arg(vec, variant):
     """F6: how the parameter vector is handed over."""
     if variant == 'list':
         return list(vec)
+    if variant == 'float32':
+        return np.array(vec, dtype=np.float32)
     a = np.array(vec, dtype=float)
     if variant == 'readonly':
         a.flags.writeable = False
@@ -553,6 +555,16 @@ def run(scenario, world):
                 raise Violation(
                     'argument_mutated', str(q),
                     '%s.%s modified its argument %s' % (kind, q, bad), step)
+            if op.get('variant') == 'float32' and not faulted:
+                # a single-precision vector is a legal argument; its result
+                # is not compared (the arithmetic may legitimately run in
+                # single precision), but it must leave no trace in the
+                # double-precision evaluations that follow
+                world.probe('single_precision_evaluation')
+                triples.append((prev, q, kind))
+                prev = q
+                check_inputs(step)
+                continue
             if faulted:
                 world.probe('faulted_evaluation')
                 n = None if vec is None else len(vec)
@@ -1180,12 +1192,20 @@ def generate(rng, index, tier):
             op = {'op': 'eval', 'on': h, 'q': q,
                   'point': rng.randint(0, 2),
                   'variant': rng.choice(
-                      ['array', 'array', 'list', 'readonly', 'view'])}
+                      ['array', 'array', 'array', 'list', 'list', 'readonly',
+                       'readonly', 'view', 'view', 'float32'])}
             if faults_on and rng.random() < 0.15 and q in (
                     'call', 's1', 'pw', 'sim', 'sample'):
                 op['fault'] = {'at_run': rng.choice([0, 0, 1]),
                                'kind': rng.choice(['fail', 'fail', 'nan'])}
             ops.append(op)
+    for h_ in ('fp', 'fp2'):
+        if h_ in handles and rng.random() < 0.4:
+            # the first evaluation a filter posterior ever sees is in single
+            # precision
+            ops.insert(0, {'op': 'eval', 'on': h_, 'q': rng.choice(
+                ['call', 's1']), 'point': rng.randint(0, 2),
+                'variant': 'float32'})
     return {'property': PROP, 'recipes': recipes, 'ops': ops,
             'points': points, 'aux': aux,
             'profile': {'menu': sorted(menu), 'faults': faults_on,
